@@ -62,6 +62,11 @@ def mask_decision(fn, cid, truth, pvar):
     if nd["k"] == "UnaryOperator" and nd.get("op") == "!":
         return mask_decision(fn, fn.kids(cid)[0], not truth, pvar)
     t = fn.term(cid)
+    if t[0] == "var" and t != pvar:
+        t = fn.xterm(cid)       # a decoded flag named first (`const bool truncate = (mode & Truncate) != 0;`)
+    if t[0] == "un" and t[1] == "!":
+        inner = mask_decision_term(t[2], pvar)
+        return (inner[0], inner[1], inner[2] != truth) if inner and inner[0] == "mask" else None
     if t[0] == "op" and t[1] in ("==", "!=") and t[3] == ("const", 0) and t[2][0] == "op" and t[2][1] == "&":
         a, b = t[2][2], t[2][3]
         if a == pvar and b[0] == "const":
@@ -71,6 +76,15 @@ def mask_decision(fn, cid, truth, pvar):
         return ("mask", t[3][1], truth)
     if t[0] == "call" and t[1].endswith("::PathExists"):
         return ("exists", truth)
+    return None
+
+
+def mask_decision_term(t, pvar):
+    """(mask, C, nonzero-when-true) for a term `(param & C) != 0` / `== 0` / `param & C`."""
+    if t[0] == "op" and t[1] in ("==", "!=") and t[3] == ("const", 0) and t[2][0] == "op" and t[2][1] == "&" and t[2][2] == pvar and t[2][3][0] == "const":
+        return ("mask", t[2][3][1], t[1] == "!=")
+    if t[0] == "op" and t[1] == "&" and t[2] == pvar and t[3][0] == "const":
+        return ("mask", t[3][1], True)
     return None
 
 
@@ -313,7 +327,7 @@ def copy_loop(F, S):
         n += 1
         bs = targs[0]["int"]
         rp = [nd for nd in fn.nodes if nd["k"] in CALLS and nd.get("fname") == "ReadPartial"]
-        wr = [nd for nd in fn.nodes if nd["k"] in CALLS and nd.get("fname") == "Write"]
+        wr = [nd for nd in fn.nodes if nd["k"] in CALLS and nd.get("fname") in ("Write", "WriteImplementation") and len(nd.get("args", [])) == 2]
         do = [nd for nd in fn.nodes if nd["k"] in ("DoStmt", "ForStmt", "WhileStmt")]
         inst = "%s#copy-loop" % fn.key
         if len(rp) != 1 or len(wr) != 1 or len(do) != 1:
